@@ -20,5 +20,24 @@
 #undef CELER_RUNTIME_THROW
 #define CELER_RUNTIME_THROW(WHICH, WHAT, COND) ::verif_validate_fail()
 
+// logging gets an empty body (formatting is not the subject of any obligation)
+#include "corecel/io/Logger.hh"
+namespace verif
+{
+struct NullMsg
+{
+    template<class T>
+    NullMsg& operator<<(T&&)
+    {
+        return *this;
+    }
+    NullMsg& operator<<(std::ostream& (*)(std::ostream&)) { return *this; }
+};
+}  // namespace verif
+#undef CELER_LOG
+#define CELER_LOG(LEVEL) ::verif::NullMsg {}
+#undef CELER_LOG_LOCAL
+#define CELER_LOG_LOCAL(LEVEL) ::verif::NullMsg {}
+
 #define private public
 #define protected public
